@@ -75,9 +75,11 @@ Record InvB (s : st) : Prop := {
 (* ---- group H: the heap and the in_use protocol ---------------------------------------------------- *)
 Record InvH (s : st) : Prop := {
   H_ttm : (tpc s = F1 \/ tpc s = SH) -> forall e, In e (lst s (tL s)) -> ttm s <= eeff e;
+  H_ttmb : (tpc s = F1 \/ tpc s = SH) -> ttm s <= now s + tL s;
   H_heapt : forall t L, In (t, L) (heap s) -> forall e, In e (lst s L) -> t <= eeff e;
+  H_heapb : forall t L, In (t, L) (heap s) -> t <= now s + L;
   H_nodup : NoDup (map snd (heap s));
-  H_zero : forall L, inuse s L = O -> ~ inheap s L /\ (forall a, ~ claimA s L a) /\ ~ claimT s L;
+  H_zero : forall L, inuse s L = O -> ~ inheap s L /\ (forall a, ~ claimA s L a) /\ ~ claimT s L /\ ~ limbo s L;
   H_pos : forall L, inuse s L <> O -> inheap s L \/ (exists a, claimA s L a) \/ claimT s L \/ limbo s L;
   H_heap_x : forall L, inheap s L -> (forall a, ~ claimA s L a) /\ ~ claimT s L /\ ~ limbo s L;
   H_claim_1 : forall L a b, claimA s L a -> claimA s L b -> a = b;
